@@ -4,7 +4,7 @@
    sarif_conversion.rs / cli main.rs after the fix: commits 62ddfef, 9edc4b5,
    77caaad; Gen.Category is regenerated from the current MessageCategory. *)
 From Coq Require Import ZArith List Bool Arith Permutation String.
-Require Import Model.Base Gen.Category Model.Runner Spec.RunnerSpec Proofs.RunnerProofs.
+Require Import Model.Base Gen.Category Model.Runner Spec.RunnerSpec Proofs.RunnerProofs Proofs.RunnerC03.
 Import ListNotations.
 
 (* every finding produced for a definition of a user file (and every parser
@@ -114,6 +114,66 @@ Theorem C03_verbose_invariant : forall p o order,
 Proof. exact verbose_invariant. Qed.
 Print Assumptions C03_verbose_invariant.
 
+(* ---- added after the outside review (design.d/AUDIT.md, section C03) ---- *)
+
+(* the exit-status clause for ALL runs of the mirror: no hypothesis on the
+   project (duplicate keys allowed), the options or the analysis order (any
+   list of keys), hence for every number of displayed diagnostics (255, 256,
+   257, 512, ...): the summary number is that count, the exit status is 0
+   exactly when nothing was displayed, it is 0 or 1, and 1 for every positive
+   count.  (The real exit status is compared with the mirror's on every run,
+   including runs with exactly 256 and 512 displayed diagnostics.) *)
+Theorem C03_exit_status_all_runs : forall p o order,
+  res_summary (run_keys p o order) = length (res_shown (run_keys p o order)) /\
+  (res_exit (run_keys p o order) = 0%Z <-> res_shown (run_keys p o order) = []) /\
+  (res_exit (run_keys p o order) = 0%Z \/ res_exit (run_keys p o order) = 1%Z) /\
+  (forall n, length (res_shown (run_keys p o order)) = S n -> res_exit (run_keys p o order) = 1%Z).
+Proof. exact exit_status_all_runs. Qed.
+Print Assumptions C03_exit_status_all_runs.
+
+(* "exactly once" as multiplicities: if [order] is a permutation of the user
+   keys, every finding is displayed as often as the stages produced it when it
+   is to be kept, and never otherwise *)
+Theorem C03_each_finding_counted : forall p o order x,
+  wf_project p -> analysis_order p order ->
+  count_occ report_eq_dec (res_shown (run_keys p o order)) x =
+  if keep_b o (p_user p) x then count_occ report_eq_dec (produced p) x else 0.
+Proof. exact each_finding_counted. Qed.
+Print Assumptions C03_each_finding_counted.
+
+(* distinct produced findings (real reports differ in position or message)
+   are displayed exactly once each, and nothing is displayed twice *)
+Theorem C03_each_finding_exactly_once : forall p o order,
+  wf_project p -> analysis_order p order -> NoDup (produced p) ->
+  NoDup (res_shown (run_keys p o order)) /\
+  forall x, In x (produced p) -> keep o (p_user p) x ->
+            count_occ report_eq_dec (res_shown (run_keys p o order)) x = 1.
+Proof. exact each_finding_exactly_once. Qed.
+Print Assumptions C03_each_finding_exactly_once.
+
+(* why [analysis_order] must be established independently of the binary: fed
+   with an order that leaves a definition out, the mirror displays only the
+   parser's reports and the findings of the definitions in that order, so a
+   definition skipped by the binary is skipped by a mirror that reads the
+   binary's log.  lib/props/C03.py therefore compares the logged order on every
+   run with the definitions the generator wrote into the user files. *)
+Theorem C03_only_analysed_definitions_displayed : forall p o order x,
+  NoDup order -> (forall k, In k order -> exists d, find_def (p_defs p) k = Some d) ->
+  In x (res_shown (run_keys p o order)) ->
+  In x (p_parse p) \/
+  exists d, In d (p_defs p) /\ In (d_key d) order /\ In x (produced_def d).
+Proof. exact only_analysed_definitions_displayed. Qed.
+Print Assumptions C03_only_analysed_definitions_displayed.
+
+Theorem C03_skipped_definition_not_displayed : forall p o order d x,
+  NoDup order -> (forall k, In k order -> exists d, find_def (p_defs p) k = Some d) ->
+  In d (p_defs p) -> ~ In (d_key d) order ->
+  In x (produced_def d) -> ~ In x (p_parse p) ->
+  (forall d', In d' (p_defs p) -> d' <> d -> ~ In x (produced_def d')) ->
+  ~ In x (res_shown (run_keys p o order)).
+Proof. exact skipped_definition_not_displayed. Qed.
+Print Assumptions C03_skipped_definition_not_displayed.
+
 (* non-vacuity: a project with two templates where U looks T up, T's CFG
    generation reports a shadowing warning; both orders display it once
    (the witness of the repaired defect D11), a label-less error passes the file
@@ -141,4 +201,38 @@ Proof.
   split. { vm_compute. apply Permutation_refl. }
   split. { vm_compute. apply perm_swap. }
   vm_compute. repeat split; reflexivity.
+Qed.
+
+(* non-vacuity of the added theorems: 300 label-less errors are displayed,
+   exit status 1 (a count >= 256); the produced findings of ex_p are distinct;
+   an order that leaves U out satisfies the hypotheses of
+   C03_skipped_definition_not_displayed and loses U's kept finding *)
+Definition ex_many : project := mkProject (repeat ex_missing 300) [] [0%Z].
+
+Example C03_witnesses_added :
+  length (res_shown (run_keys ex_many ex_o [])) = 300 /\
+  res_summary (run_keys ex_many ex_o []) = 300 /\
+  res_exit (run_keys ex_many ex_o []) = 1%Z /\
+  NoDup (produced ex_p) /\
+  count_occ report_eq_dec (res_shown (run_keys ex_p ex_o [(KTemplate, 2%Z); (KTemplate, 1%Z)])) ex_shadow = 1 /\
+  count_occ report_eq_dec (res_shown (run_keys ex_p ex_o [(KTemplate, 2%Z); (KTemplate, 1%Z)])) ex_included = 0 /\
+  (NoDup [(KTemplate, 1%Z)] /\
+   (forall k, In k [(KTemplate, 1%Z)] -> exists d, find_def (p_defs ex_p) k = Some d) /\
+   In ex_U (p_defs ex_p) /\ ~ In (d_key ex_U) [(KTemplate, 1%Z)] /\
+   In ex_unused (produced_def ex_U) /\ keep ex_o (p_user ex_p) ex_unused /\
+   res_shown (run_keys ex_p ex_o [(KTemplate, 1%Z)]) = [ex_missing; ex_shadow]).
+Proof.
+  split. { vm_compute. reflexivity. }
+  split. { vm_compute. reflexivity. }
+  split. { vm_compute. reflexivity. }
+  split. { vm_compute. repeat constructor; simpl; intuition discriminate. }
+  split. { vm_compute. reflexivity. }
+  split. { vm_compute. reflexivity. }
+  split. { repeat constructor. simpl. tauto. }
+  split. { intros k [Hk|[]]. subst k. eexists. vm_compute. reflexivity. }
+  split. { simpl. auto. }
+  split. { simpl. intros [H|[]]. discriminate. }
+  split. { simpl. auto. }
+  split. { apply keep_b_keep. vm_compute. reflexivity. }
+  vm_compute. reflexivity.
 Qed.
